@@ -59,7 +59,7 @@ def _try_inner(n):
     return n
 
 
-def rule_digits(E, R, crates):
+def rule_digits(E, R, crates, floor=2):
     rule = "R06-digits"
     sites = []
     for C in crates:
@@ -68,7 +68,7 @@ def rule_digits(E, R, crates):
                 continue
             for c in calls(hb["body"], r"core::num::\{impl [iu](8|16|32|64|128|size)\}::from_str_radix$"):
                 sites.append((C, hb, c))
-    R.floor(rule, "from_str_radix call sites", len(sites), 2)
+    R.floor(rule, "from_str_radix call sites", len(sites), floor)
     for C, hb, c in sites:
         fn = norm(hb["path"])
         s = strip(c["args"][0])
